@@ -51,12 +51,10 @@ const UNFORWARDABLE: [&str; 14] = [
 
 /// failure classes with a fixed witness in `corpus()` (each is a confirmed defect of the
 /// unchanged code, see tools/props/C08.json); generated cases only count them
-const KNOWN_CLASSES: [&str; 13] = [
+const KNOWN_CLASSES: [&str; 11] = [
     "route-not-served:tcp-frontend-overwritten",
     "route-not-served:backends-share-address",
     "route-served-but-absent:backends-share-address",
-    "no-final-answer:CountRequests",
-    "no-final-answer-before-stop:",
     "no-final-answer:SoftStop:listener-removed-while-active",
     "no-final-answer:SoftStop:remove-of-unknown-listener",
     "route-not-served:listener-reactivated",
@@ -164,6 +162,8 @@ struct Ctx {
     /// property says nothing about them and the behaviour probes leave them alone
     unforwardable_slots: BTreeSet<u64>,
     unforwardable_clusters: BTreeSet<u64>,
+    /// clusters whose AddCluster the main state accepted and a proxy refused
+    failed_clusters: BTreeSet<u64>,
     /// causes of a SoftStop that never completes, seen in this case
     rml_unknown: bool,
     rml_live: bool,
@@ -200,6 +200,7 @@ impl Ctx {
             failed_listener: BTreeSet::new(),
             unforwardable_slots: BTreeSet::new(),
             unforwardable_clusters: BTreeSet::new(),
+            failed_clusters: BTreeSet::new(),
             rml_unknown: false,
             rml_live: false,
             token_reused: false,
@@ -326,6 +327,9 @@ impl Ctx {
                         unhealthy_threshold: 1,
                         ..Default::default()
                     });
+                }
+                if ws.get(3) == Some(&"0") {
+                    c.answer_503 = Some("this is not an HTTP response".into());
                 }
                 RequestType::AddCluster(c)
             }
@@ -615,6 +619,9 @@ impl Ctx {
                 _ => {}
             }
         }
+        if ws[0] == "addcluster" && differs {
+            self.failed_clusters.insert(n(1));
+        }
         match ws[0] {
             "addl" => {
                 if differs {
@@ -843,7 +850,8 @@ fn check_view_and_behaviour(ctx: &mut Ctx, keys_seen: &BTreeSet<(u64, u64)>) {
                     (Some(i), false) if expected.contains(&i) => {}
                     (None, true) => {}
                     (None, false) => {
-                        let cause = if ctx.failed_front.contains(&fk) {
+                        let cluster_failed = clusters.iter().any(|c| ctx.failed_clusters.contains(&c.trim_start_matches('c').parse::<u64>().unwrap_or(99)));
+                        let cause = if ctx.failed_front.contains(&fk) || cluster_failed {
                             "command-outcome-differs"
                         } else if ctx.reactivated.contains(&("h".to_string(), slot)) {
                             "listener-reactivated"
@@ -1046,7 +1054,9 @@ fn gen_case(rng: &mut Rng, thorough: bool) -> Vec<String> {
             ops.push(format!("updl {t} {s} {}", valid as u8));
         } else if r < 36 {
             let hc = clean || !rng.chance(1, 10);
-            ops.push(format!("addcluster {c} {}", hc as u8));
+            // a custom 503 template that does not parse: the HTTP / HTTPS proxy fails iff it has a listener
+            let tpl = clean || !rng.chance(1, 8);
+            ops.push(format!("addcluster {c} {} {}", hc as u8, tpl as u8));
             if hc {
                 sh.clusters.insert(c);
             }
@@ -1547,9 +1557,10 @@ impl Area for WorkerArea {
     fn corpus(&self) -> Vec<Vec<String>> {
         let v = |s: &[&str]| s.iter().map(|x| x.to_string()).collect::<Vec<String>>();
         vec![
-            // F16: kinds without a handler get no response (CountRequests passes ConfigState::dispatch, so LoadState forwards it)
+            // regression F16 (repaired, /repo 2ea09e9): kinds without a handler are refused with one FAILURE
+            // (CountRequests passes ConfigState::dispatch, so LoadState forwards it)
             v(&["new w", "plain CountRequests 1", "plain None 1", "plain ListWorkers 1", "plain Status 1"]),
-            // a request written right before HardStop is never answered
+            // regression (repaired, /repo de8b744): a request written right before HardStop keeps its answer
             v(&["new w", "nowait plain Status 1", "plain HardStop 1"]),
             // RemoveListener of an active listener, then SoftStop: never answered
             v(&["new w", "addl h 0 1", "act h 0", "rml h 0", "plain SoftStop 1"]),
@@ -1558,17 +1569,17 @@ impl Area for WorkerArea {
             // RemoveListener of an unknown address: HTTP says OK, TCP says FAILURE, both decrement base_sessions_count
             v(&["new w", "addl h 0 1", "addl t 1 1", "rml h 3", "rml t 3", "plain SoftStop 1"]),
             // F8/F22: a command the main state accepts and the proxy refuses stays in both views, not in the behaviour
-            v(&["new w", "addl h 0 1", "act h 0", "addcluster 0 1", "addbackend 0 0 0", "addf h 0 0 0 h", "qcluster 0"]),
-            v(&["new w", "addcluster 0 1", "addbackend 0 0 0", "addf h 0 0 0 -", "addl h 0 1", "act h 0", "qcluster 0"]),
+            v(&["new w", "addl h 0 1", "act h 0", "addcluster 0 1 1", "addbackend 0 0 0", "addf h 0 0 0 h", "qcluster 0"]),
+            v(&["new w", "addcluster 0 1 1", "addbackend 0 0 0", "addf h 0 0 0 -", "addl h 0 1", "act h 0", "qcluster 0"]),
             v(&["new w", "addl4 t 1 2", "addl t 1 1", "act t 1", "addbackend 2 1 1"]),
             v(&["new w", "addl h 0 0", "act h 0"]),
             // F8: commands answered FAILURE stay in the view (no listener at the address: nothing to probe)
-            v(&["new w", "addl h 0 1", "act h 0", "addcluster 0 1", "addbackend 0 0 0", "addf h 3 0 0 -", "addf h 0 30 0 r", "rmbackend 0 1 1", "qcluster 0"]),
+            v(&["new w", "addl h 0 1", "act h 0", "addcluster 0 1 1", "addbackend 0 0 0", "addf h 3 0 0 -", "addf h 0 30 0 r", "rmbackend 0 1 1", "qcluster 0"]),
             // deactivate then activate: the listener accepts connections and never serves them
-            v(&["new w", "addl h 0 1", "act h 0", "addcluster 0 1", "addbackend 0 0 0", "addf h 0 0 0 -", "deact h 0", "act h 0", "qcluster 0"]),
-            v(&["new w", "addl t 1 1", "act t 1", "addcluster 1 1", "addbackend 1 1 1", "addl4 t 1 1", "deact t 1", "act t 1", "qcluster 1"]),
+            v(&["new w", "addl h 0 1", "act h 0", "addcluster 0 1 1", "addbackend 0 0 0", "addf h 0 0 0 -", "deact h 0", "act h 0", "qcluster 0"]),
+            v(&["new w", "addl t 1 1", "act t 1", "addcluster 1 1 1", "addbackend 1 1 1", "addl4 t 1 1", "deact t 1", "act t 1", "qcluster 1"]),
             // remove an active listener and add it again: every command OK, the frontends of the view are not served
-            v(&["new w", "addl h 1 1", "act h 1", "addcluster 2 1", "addbackend 2 1 1", "addf h 1 10 2 -", "rml h 1", "addl h 1 1", "act h 1"]),
+            v(&["new w", "addl h 1 1", "act h 1", "addcluster 2 1 1", "addbackend 2 1 1", "addf h 1 10 2 -", "rml h 1", "addl h 1 1", "act h 1"]),
             // a token freed by DeactivateListener is handed to the next listener: same proxy -> FAILURE, other proxy -> shared token
             v(&["new w", "addl s 3 1", "act s 3", "deact s 3", "addl s 0 1", "act s 0"]),
             v(&["new w", "addl u 0 1", "act u 0", "deact u 0", "addl t 2 1", "act t 2", "act u 0", "addl4 t 2 0", "addbackend 0 0 0"]),
@@ -1577,10 +1588,14 @@ impl Area for WorkerArea {
             v(&["new w", "addl t 1 1", "act t 1", "addbackend 0 0 0", "addbackend 1 1 1", "addl4 t 1 0", "addl4 t 1 1", "rml4 t 1 1"]),
             // two backend ids on one address: RemoveBackend of one drops both in the worker (address-keyed)
             v(&["new w", "addl t 0 1", "act t 0", "addl4 t 0 0", "addbackend 0 0 0", "addbackend 0 2 0", "rmbackend 0 2 0"]),
+            // a destined proxy fails in a four-way fan-out (AddCluster with a template that does not parse):
+            // one FAILURE, the other three proxies and both views take the cluster
+            v(&["new w", "addl h 0 1", "addl t 1 1", "addcluster 0 1 0", "addcluster 1 1 1", "qcluster 0", "plain Status 1"]),
+            v(&["new w", "addl t 1 1", "addcluster 0 1 0", "addl s 2 1", "addcluster 0 1 0", "qcluster 0"]),
             // an EQUALS rule is deduplicated and removed like the others (F1 of C04 is repaired)
-            v(&["new w", "addl h 0 1", "act h 0", "addcluster 0 1", "addbackend 0 0 0", "addf h 0 40 0 e", "addf h 0 40 0 e", "rmf h 0 40 0 e"]),
+            v(&["new w", "addl h 0 1", "act h 0", "addcluster 0 1 1", "addbackend 0 0 0", "addf h 0 40 0 e", "addf h 0 40 0 e", "rmf h 0 40 0 e"]),
             // a clean configuration works end to end
-            v(&["new w", "addl h 0 1", "act h 0", "addcluster 0 1", "addbackend 0 0 0", "addf h 0 0 0 -", "addf h 0 40 0 e", "addf h 0 120 0 -", "addl t 1 1", "act t 1", "addl4 t 1 0", "qcluster 0", "plain SoftStop 1"]),
+            v(&["new w", "addl h 0 1", "act h 0", "addcluster 0 1 1", "addbackend 0 0 0", "addf h 0 0 0 -", "addf h 0 40 0 e", "addf h 0 120 0 -", "addl t 1 1", "act t 1", "addl4 t 1 0", "qcluster 0", "plain SoftStop 1"]),
         ]
     }
     fn gen(&self, rng: &mut Rng, thorough: bool) -> Vec<String> {
